@@ -76,7 +76,7 @@ class Adapter:
     def apply(self, w, a):
         op, g = a["op"], a["g"]
         o = w[g]
-        obs = {"ok": True, "dlog": 0, "dappr": 0, "config": {}, "raised": False}
+        obs = {"ok": True, "dlog": 0, "dappr": 0, "config": {}, "raised": False, "clog": 0, "cappr": 0}
         try:
             st0 = o.get_statistics() if o is not None else None
             pre_vals = self.project(w)["value"]
@@ -98,6 +98,8 @@ class Adapter:
                 st0 = w["p"].get_statistics()
                 w["c"] = w["p"].replicate(mutations=dict(a["muts"]) or None)
                 o = w["p"]
+                cst = w["c"].get_statistics()
+                obs["clog"], obs["cappr"] = cst["mutations_count"], cst["approved_mutations"]      # the child's own log of the replication mutations
             elif op == "express":
                 obs["config"] = dict(o.express({n: True for n in a["ctx"]}))
             st1 = o.get_statistics()
